@@ -3,7 +3,7 @@
    and — by induction on the fuel of the interpreter — every row of an API result is clean. *)
 From Coq Require Import Floats.
 From GenqlV Require Import Base.Prelude Base.Value Model.Ast Model.Eval Model.Exec Model.Join
-                           Spec.PlainSpec Proofs.C12Clean Proofs.C12Eval.
+                           Spec.PlainSpec Proofs.UpFacts Proofs.C12Clean Proofs.C12Eval.
 Local Open Scope list_scope.
 
 (* ------------------------------------------------------------------ *)
@@ -216,8 +216,17 @@ Definition join_ok (join : jointype -> jstrategy -> list value -> list value -> 
 
 (* query.data: a scope copy inside subqueries, clean at the top level; registered CTE bodies are
    admissible at the same level *)
+Definition ctes_ok (strict : bool) (ctes : list (string * stmt)) : Prop :=
+  Forall (fun c => stmt_ok strict (snd c) = true) ctes.
+
+(* an enclosing query, as a subquery reaches it behind `<-`: its data map and the bodies of its CTE
+   thunks are admissible at that query's own level *)
+Definition frame_ok (f : frame) : Prop :=
+  exists strict, cur_ok strict (fr_data f) /\ ctes_ok strict (fr_ctes f).
+
 Definition ctx_ok (strict : bool) (ctx : qctx) : Prop :=
-  cur_ok strict (c_data ctx) /\ Forall (fun c => stmt_ok strict (snd c) = true) (c_ctes ctx).
+  (cur_ok strict (c_data ctx) /\ Forall (fun c => stmt_ok strict (snd c) = true) (c_ctes ctx)) /\
+  Forall frame_ok (c_up ctx).
 
 (* a prepared SELECT over given rows: only its grouping columns and select list matter *)
 Definition rows_select_ok (s : select stmt) : Prop :=
@@ -255,11 +264,12 @@ Section Pipeline.
   Lemma mk_env_ok : forall strict ctx s filtered,
     ctx_ok strict ctx -> env_ok (mk_env rec call join ctx s filtered) (stmt_ok true).
   Proof.
-    intros strict ctx s filtered [[Hn _] _]. constructor; cbn.
+    intros strict ctx s filtered [[[Hn Hcl] Hc] Hup]. constructor; cbn.
     - exact Hn.
     - reflexivity.
-    - intros q cur v Hq Hcur H. eapply (Hrec true (sub_ctx cur) (JStmt q)); [|exact Hq|exact H].
-      split; cbn; [split; [exact Hcur|discriminate]|constructor].
+    - intros q cur v Hq Hcur H. eapply (Hrec true (sub_ctx ctx cur) (JStmt q)); [|exact Hq|exact H].
+      split; cbn; [split; [split; [exact Hcur|discriminate]|constructor]|].
+      constructor; [|exact Hup]. exists strict. split; [split; assumption|exact Hc].
     - intros f arg cur r H. destruct (s_group s).
       + eapply eval_agg_ok; eauto.
       + destruct (lookup "*" cur) as [[ | | | |ms| ]|]; try discriminate. eapply eval_agg_ok; eauto.
@@ -392,16 +402,32 @@ Section Pipeline.
         destruct (cte_lookup_in _ _ _ Ec) as [n Hin].
         eapply (Hrec strict); [|
           |exact Ers].
-        * destruct Hctx as [Hd Hc]. split; [exact Hd|exact Hc].
-        * cbn. destruct Hctx as [_ Hc]. rewrite Forall_forall in Hc. apply (Hc _ Hin).
-      + destruct (reader (k :: rest) (VObj (c_data ctx))) as [v| | |] eqn:Er; cbn [bind] in H; try discriminate.
+        * destruct Hctx as [[Hd Hc] Hup]. split; [split; [exact Hd|exact Hc]|exact Hup].
+        * cbn. destruct Hctx as [[_ Hc] _]. rewrite Forall_forall in Hc. apply (Hc _ Hin).
+      + destruct (up_read ctx (k :: rest)) as [h|] eqn:Eh.
+        { (* a thunk of an enclosing query: evaluated at that query's level *)
+          destruct (existsb (String.eqb (uh_name h)) (fr_busy (uh_frame h))); [discriminate|].
+          match type of H with bind ?x _ = _ => destruct x as [rs| | |] eqn:Ers; cbn [bind] in H; try discriminate end.
+          destruct (reader (uh_rest h) rs) as [v| | |] eqn:Er; cbn [bind] in H; try discriminate.
+          destruct (as_array v) as [arr| | |] eqn:Ea; cbn [bind] in H; try discriminate.
+          inversion H; subst. apply process_alias_clean; [exact Ha|].
+          eapply as_array_clean; [|exact Ea]. eapply reader_clean; [|exact Er].
+          destruct (up_read_some _ _ _ Eh) as (pre & Hup & Hbody).
+          destruct Hctx as [_ Hfr]. rewrite Hup in Hfr. apply Forall_app in Hfr. destruct Hfr as [_ Hfr].
+          inversion Hfr as [|? ? Hf Hrest]; subst. destruct Hf as (sf & Hfd & Hfc).
+          destruct (cte_lookup_in _ _ _ Hbody) as [n Hin].
+          eapply (Hrec sf); [| |exact Ers].
+          - split; cbn; [split; assumption|exact Hrest].
+          - cbn. unfold ctes_ok in Hfc. rewrite Forall_forall in Hfc. apply (Hfc _ Hin). }
+        destruct (reader (k :: rest) (VObj (c_data ctx))) as [v| | |] eqn:Er; cbn [bind] in H; try discriminate.
         assert (Hv : clean v).
         { eapply (value_of_clean strict (c_data ctx) (RCol (k :: rest))); [apply Hctx| |exact Er].
           cbn [raw_ok]. intros ->. destruct (nav_only (k :: rest)); [cbn in Hp; discriminate Hp|reflexivity]. }
         destruct v; try (inversion H; subst; constructor);
           (destruct (as_array _) as [arr| | |] eqn:Ea; cbn [bind] in H; try discriminate;
            inversion H; subst; apply process_alias_clean; [exact Ha|eapply as_array_clean; [exact Hv|exact Ea]]).
-    - destruct (reader path (VObj (c_data ctx))) as [v| | |] eqn:Er; cbn [bind] in H; try discriminate.
+    - destruct (up_read ctx path); [discriminate|].
+      destruct (reader path (VObj (c_data ctx))) as [v| | |] eqn:Er; cbn [bind] in H; try discriminate.
       destruct (top_level_fn fn v) as [w| | |] eqn:Et; cbn [bind] in H; try discriminate.
       assert (Hw : clean w).
       { eapply top_level_fn_clean; [|exact Et]. eapply reader_nav; [|exact Er]. apply Hctx. }
@@ -429,7 +455,7 @@ Section Pipeline.
     ctx_ok strict ctx -> Forall (fun c => stmt_ok strict (snd c) = true) w ->
     ctx_ok strict (register_ctes ctx w).
   Proof.
-    intros strict ctx w [Hd Hc] Hw. split; [exact Hd|]. cbn.
+    intros strict ctx w [[Hd Hc] Hup] Hw. split; [|exact Hup]. split; [exact Hd|]. cbn.
     apply Forall_app. split; [apply Forall_rev, Hw|exact Hc].
   Qed.
 
@@ -484,7 +510,7 @@ Proof.
   match type of H with bind (catch_panic ?x) _ = _ => destruct x as [v| | |] eqn:Ev; cbn [bind catch_panic] in H; try discriminate end.
   assert (Hv : clean v).
   { eapply (exec_clean call join Hcall Hjoin fuel false _ (JStmt q)); [|exact Hq|exact Ev].
-    split; cbn; [|constructor]. apply cur_ok_clean.
+    split; cbn; [|constructor]. split; cbn; [|constructor]. apply cur_ok_clean.
     destruct wrapped.
     - apply clean_obj. constructor; [split; [unfold nav; cbn; discriminate|exact Hdoc]|constructor].
     - destruct doc; try apply clean_obj_nil. exact Hdoc. }
